@@ -532,7 +532,7 @@ def run(tier):
                     for un in (None, order[0], order[-1]):
                         ops = ["+%s=1" % t for t in order] + ["+%s=2" % redo] + (["-%s" % un] if un else []) + ["?%s" % absent] + ["?%s" % t for t in tags[:n]]
                         glines.append("G " + " ".join(ops))
-    gi, gcr = K.run_impl("core", glines, mode="o2", nchunks=8, cpu_s=60)
+    gi, gcr = K.run_impl("core", glines, mode="o2", nchunks=8, cpu_s=5, resilient=False)  # a hang costs one chunk 5 CPU-seconds, then that chunk stops
     rep.count("registry-histories-then-lookups", len(glines))
     for idx, rc, err in gcr[:3]:
         found = True
